@@ -2,6 +2,178 @@
 
 package main
 
-import "gitlab.com/yawning/obfs4.git/internal/zzverif/mc"
+import (
+	"fmt"
+	"sort"
+	"strings"
 
-func concScenarios(cfg *mc.Config, emit func(mc.Scenario)) {}
+	"gitlab.com/yawning/obfs4.git/common/replayfilter"
+	"gitlab.com/yawning/obfs4.git/internal/zzverif/mc"
+	"gitlab.com/yawning/obfs4.git/internal/zzverif/rnd"
+	"gitlab.com/yawning/obfs4.git/internal/zzverif/sched"
+)
+
+type opRec struct {
+	thread   int
+	val      string
+	inv, ret int
+	res      bool
+}
+
+// linearizable: brute force over all orders consistent with real time.
+func linearizable(ops []opRec, pre map[string]bool) bool {
+	n := len(ops)
+	done := make([]bool, n)
+	set := map[string]bool{}
+	for k := range pre {
+		set[k] = true
+	}
+	var rec func(k int) bool
+	rec = func(k int) bool {
+		if k == n {
+			return true
+		}
+		for i := 0; i < n; i++ {
+			if done[i] {
+				continue
+			}
+			// i may be next only if no other pending op returned before i was invoked
+			ok := true
+			for j := 0; j < n; j++ {
+				if j != i && !done[j] && ops[j].ret < ops[i].inv {
+					ok = false
+				}
+			}
+			if !ok {
+				continue
+			}
+			had := set[ops[i].val]
+			if had != ops[i].res {
+				continue
+			}
+			done[i] = true
+			set[ops[i].val] = true
+			if rec(k + 1) {
+				return true
+			}
+			done[i] = false
+			if !had {
+				delete(set, ops[i].val)
+			}
+		}
+		return false
+	}
+	return rec(0)
+}
+
+func concScenario(name string, scripts [][]string, preload []string, bound int, seed int64) mc.Scenario {
+	return mc.Scenario{
+		Name:   name,
+		Params: map[string]any{"scripts": scripts, "preload": preload},
+		Bound:  bound,
+		Weight: 60,
+		Run: func(c *mc.Ctx) {
+			rnd.Install(rnd.New(seed, "c11c"))
+			f, err := replayfilter.New(ttlConc)
+			if err != nil {
+				panic(err)
+			}
+			pre := map[string]bool{}
+			for _, v := range preload {
+				f.TestAndSet(t0, []byte(v))
+				pre[v] = true
+			}
+			var ops []opRec
+			tick := 0
+			overlap := false
+			inside := 0
+			res := sched.Run(c, sched.Options{FreeSwitch: true}, func() {
+				s := sched.Cur()
+				for ti, sc := range scripts {
+					ti, sc := ti, sc
+					s.Spawn(fmt.Sprintf("caller%d", ti), func() {
+						for _, v := range sc {
+							tick++
+							inv := tick
+							inside++
+							if inside > 1 {
+								overlap = true
+							}
+							r := f.TestAndSet(t0, []byte(v))
+							inside--
+							tick++
+							ops = append(ops, opRec{ti, v, inv, tick, r})
+						}
+					})
+				}
+			})
+			if len(res.Panics) > 0 {
+				c.Fail("panic", "C11/conc/panic", "panic under concurrency: %s", res.Panics[0])
+				return
+			}
+			if res.Quiescent || res.Livelock {
+				c.Fail("deadlock", "C11/conc/deadlock", "callers never returned: %+v", res.Blocked)
+				return
+			}
+			if overlap {
+				c.Count("executions_with_overlapping_calls", 1)
+			} else {
+				c.Trivial()
+			}
+			sort.Slice(ops, func(i, j int) bool { return ops[i].inv < ops[j].inv })
+			var sb strings.Builder
+			for _, o := range ops {
+				fmt.Fprintf(&sb, "T%d:%s[%d,%d]=%v ", o.thread, o.val, o.inv, o.ret, o.res)
+			}
+			c.Observe("history", sb.String())
+			if !linearizable(ops, pre) {
+				c.Fail("linearizable", "C11/conc/not-linearizable", "history is not a linearizable test-and-set: %s", sb.String())
+			}
+			// the headline clause: of several submissions of one value exactly one is told "new"
+			news := map[string]int{}
+			for _, o := range ops {
+				if !o.res {
+					news[o.val]++
+				}
+			}
+			for v, k := range news {
+				if k > 1 {
+					c.Fail("exactly-one-new", "C11/conc/two-new", "value %s was reported new %d times: %s", v, k, sb.String())
+				}
+			}
+			for _, o := range ops {
+				if pre[o.val] && !o.res {
+					c.Fail("exactly-one-new", "C11/conc/preloaded-new", "preloaded value %s reported new: %s", o.val, sb.String())
+				}
+			}
+			ents, bij := replayfilter.VerifDump(f)
+			if !bij {
+				c.Fail("bijection", "C11/conc/bijection", "map and fifo out of bijection after %s", sb.String())
+			}
+			distinct := map[string]bool{}
+			for _, o := range ops {
+				distinct[o.val] = true
+			}
+			for _, v := range preload {
+				distinct[v] = true
+			}
+			if len(ents) != len(distinct) {
+				c.Fail("contents", "C11/conc/size", "filter holds %d entries, %d distinct values were submitted: %s", len(ents), len(distinct), sb.String())
+			}
+		},
+	}
+}
+
+func concScenarios(cfg *mc.Config, emit func(mc.Scenario)) {
+	b := 2
+	if cfg.Thorough() {
+		b = 3
+	}
+	emit(concScenario("conc/2x1-same", [][]string{{"A"}, {"A"}}, nil, b+1, cfg.Seed))
+	emit(concScenario("conc/2x2-same", [][]string{{"A", "A"}, {"A", "A"}}, nil, b, cfg.Seed))
+	emit(concScenario("conc/2x2-cross", [][]string{{"A", "B"}, {"B", "A"}}, nil, b, cfg.Seed))
+	emit(concScenario("conc/3x1-same", [][]string{{"A"}, {"A"}, {"A"}}, nil, b, cfg.Seed))
+	emit(concScenario("conc/3x1-mixed", [][]string{{"A"}, {"A"}, {"B"}}, []string{"C"}, b, cfg.Seed))
+	emit(concScenario("conc/3x2-mixed", [][]string{{"A", "B"}, {"B", "A"}, {"A", "C"}}, nil, b, cfg.Seed))
+	emit(concScenario("conc/2x1-preloaded", [][]string{{"A"}, {"A"}}, []string{"A"}, b, cfg.Seed))
+}
